@@ -500,6 +500,9 @@ pub fn replay(v: &Value) -> Option<Result<(), String>> {
         let _ = std::fs::remove_dir_all(&root);
         return Some(r);
     }
+    if v.get("kind")?.as_str()? == "large_file" {
+        return Some(large_file_verdict(v.get("size")?.as_u64()? as usize, v.get("role")?.as_u64()? as u8, v.get("pad")?.as_u64()? as u8, "replay").map_err(|(k, why)| format!("{}: {}", k, why)));
+    }
     if v.get("kind")?.as_str()? != "include_tree" {
         return None;
     }
@@ -724,6 +727,95 @@ fn same_name_leg(ev: &mut Ev) {
     }
 }
 
+/// Text of about `size` bytes whose decisive lines stand at its very end: padding is comment
+/// lines (`pad` 0), blank lines and short comments (1) or data lines with comments (2).
+fn large_text(size: usize, pad: u8, last: &str) -> String {
+    let mut t = String::with_capacity(size + 200);
+    t.push_str(".dw 0x1001\n");
+    let mut i = 0usize;
+    while t.len() + last.len() < size {
+        match pad {
+            0 => t.push_str(&format!("; padding line {:>8} ........................................................\n", i)),
+            1 => t.push_str(if i % 3 == 0 { "\n" } else { " // x\n" }),
+            _ => t.push_str(&format!(" .dw {} ; entry {} of a generated table\n", i % 65536, i)),
+        }
+        i += 1;
+    }
+    t.push_str(last);
+    t
+}
+
+pub fn large_file_case(size: usize, role: u8, pad: u8) -> (Vec<(&'static str, String)>, String) {
+    match role {
+        // the included file is large; what it defines at its end is used behind the include
+        0 => {
+            let part = large_text(size, pad, ".equ c11_last = 0x77\n.dw 0x2002\n");
+            let main = ".dw 1\n.include \"part.inc\"\n.dw c11_last\n".to_string();
+            let pasted = main.replace(".include \"part.inc\"\n", &part);
+            (vec![("main.asm", main), ("part.inc", part)], pasted)
+        }
+        // the main file is large and includes a small file at its end
+        1 => {
+            let main = large_text(size, pad, ".include \"part.inc\"\n.dw c11_last\n");
+            let part = ".equ c11_last = 0x66\n.dw 0x3003\n".to_string();
+            let pasted = main.replace(".include \"part.inc\"\n", &part);
+            (vec![("main.asm", main), ("part.inc", part)], pasted)
+        }
+        // a large file that ends with .exit in its middle third: only the file is cut off
+        _ => {
+            let head = large_text(size / 2, pad, ".equ c11_last = 0x55\n.exit\n");
+            let tail = large_text(size / 2, 0, "this line is never read\n");
+            let part = format!("{}{}", head, tail);
+            let main = ".dw 1\n.include \"part.inc\"\n.dw c11_last\n".to_string();
+            let pasted = main.replace(".include \"part.inc\"\n", &head.replace(".exit\n", ""));
+            (vec![("main.asm", main), ("part.inc", part)], pasted)
+        }
+    }
+}
+
+fn large_file_verdict(size: usize, role: u8, pad: u8, slot: &str) -> Result<(), (String, String)> {
+    let (files, pasted) = large_file_case(size, role, pad);
+    let root = scratch_dir().join(format!("c11-large-{}", slot));
+    let _ = std::fs::remove_dir_all(&root);
+    let _ = std::fs::create_dir_all(&root);
+    for (n, t) in &files {
+        let _ = std::fs::write(root.join(n), t);
+    }
+    let tree_out = build_file(root.join("main.asm"), BTreeSet::new());
+    let flat_out = build(&pasted);
+    let _ = std::fs::remove_dir_all(&root);
+    if !matches!(flat_out, Outcome::Ok(_)) {
+        return Err(("harness".into(), format!("the pasted text does not build: {}", flat_out.brief())));
+    }
+    compare(&tree_out, &flat_out, &[])
+}
+
+/// Files far larger than any fixture: sizes around 2^16, 2^20, 2^22 bytes and a few between.
+fn large_files_leg(ev: &mut Ev, thorough: bool) {
+    let mut sizes: Vec<usize> = vec![40_000, 65_530, 65_600, 300_000, (1 << 20) - 40, (1 << 20) + 90, 2_500_000];
+    if thorough {
+        sizes.extend([(1 << 22) + 17, 6_000_000, (1 << 24) + 5]);
+    }
+    let cases: Vec<(usize, u8, u8)> = sizes.iter().flat_map(|&s| (0u8..3).flat_map(move |role| (0u8..3).map(move |pad| (s, role, pad)))).filter(|(s, _, pad)| *pad != 2 || *s <= 300_000).collect();
+    use rayon::prelude::*;
+    let results: Vec<((usize, u8, u8), Result<(), (String, String)>)> = cases.par_iter().map(|&(s, role, pad)| ((s, role, pad), large_file_verdict(s, role, pad, &format!("{}-{}-{}", s, role, pad)))).collect();
+    for ((s, role, pad), r) in results {
+        ev.eval();
+        ev.class("file-larger-than-any-fixture");
+        if s > (1 << 20) {
+            ev.class("file-larger-than-1MiB");
+        }
+        ev.nt(fp(&(s, role, pad)));
+        if let Err((k, why)) = r {
+            if k == "harness" {
+                ev.class("large-file:pasted-text-not-usable");
+                continue;
+            }
+            ev.violation(Violation { sig: format!("c11:large-file:{}:{}", ["included-file", "main-file", "exit-in-large-file"][role as usize % 3], k), what: format!("[file of about {} bytes, padding kind {}] {}", s, pad, why.chars().take(300).collect::<String>()), replay: json!({"kind": "large_file", "size": s, "role": role, "pad": pad}) });
+        }
+    }
+}
+
 fn spanning_leg(ev: &mut Ev) {
     for (tag, files, pasted, sig) in spanning_cases() {
         ev.eval();
@@ -753,6 +845,7 @@ pub fn run(ctx: &Ctx) -> Result<Ev, String> {
     many_includes_leg(&mut total);
     spanning_leg(&mut total);
     same_name_leg(&mut total);
+    large_files_leg(&mut total, ctx.thorough);
     if total.has_violation() {
         return Ok(total);
     }
